@@ -378,13 +378,22 @@ func (vc *VC) ghostHeap(structT types.Type, g *GhostField) (*heapInfo, error) {
 	return vc.heapDecl(&heapInfo{name: name, kind: heapGhost, valType: t, valSort: vc.ghostSort(t), levels: 1}), nil
 }
 // Engine-level ghost state (never written by the code, excluded from frame checks like declared ghost fields):
-//   - evalcount: how many times each function value has been called through a function type under contract
-//     (spec term evalcount(f)); incremented at such a call, havocked at every other impure call;
+//   - evalcount / evaltrue / evalfalse: how many times each function value has been called through a function type
+//     under contract, and how many of those calls returned true / false (spec terms evalcount(f), evaltrue(f),
+//     evalfalse(f)); incremented at such a call, only allowed to grow at every other impure call;
 //   - visited_n: the set of keys the n-th map iteration of the function has produced so far (spec term visited(k)
 //     in the invariants of that range loop).
 // Both are only materialised for functions whose contract mentions them (mentions()).
 func (vc *VC) evalCountHeap() *heapInfo {
 	return vc.heapDecl(&heapInfo{name: "HG_evalcount", kind: heapGhost, valSort: "(Array Int Int)", levels: 0})
+}
+func (vc *VC) evalHeaps() []*heapInfo {
+	return []*heapInfo{vc.evalCountHeap(),
+		vc.heapDecl(&heapInfo{name: "HG_evaltrue", kind: heapGhost, valSort: "(Array Int Int)", levels: 0}),
+		vc.heapDecl(&heapInfo{name: "HG_evalfalse", kind: heapGhost, valSort: "(Array Int Int)", levels: 0})}
+}
+func (fc *FuncContract) mentionsEval() bool {
+	return fc.mentions("evalcount(") || fc.mentions("evaltrue(") || fc.mentions("evalfalse(")
 }
 func (vc *VC) visitedHeap(n int, keySort string) *heapInfo {
 	return vc.heapDecl(&heapInfo{name: fmt.Sprintf("HG_visited_%s_%d", sanitize(keySort), n), kind: heapGhost, valSort: "(Array " + keySort + " Bool)", levels: 0, keySort: keySort})
